@@ -985,31 +985,66 @@ var hookRes = []string{"n", "n", "n", "x", "e", "xe"}
 
 func genCase(r *rand.Rand, w *bufio.Writer, id string) {
 	fmt.Fprintf(w, "case %s\n", id)
-	type rq struct{ id, p int }
-	var live []rq // requests created so far (may have terminated: that is fine)
+	// approximate lifecycle tracking (q queued, r running, p paused, x gone) so that most operations
+	// are meaningful; exactness is not needed: every operation is legal in every state
+	type rq struct {
+		id, p int
+		st    string
+	}
+	var reqs []*rq
 	next := 1
-	nops := 4 + r.Intn(22)
-	pickReq := func() int {
-		if len(live) == 0 || r.Intn(12) == 0 {
+	nops := 4 + r.Intn(24)
+	pickAny := func() int {
+		if len(reqs) == 0 || r.Intn(12) == 0 {
 			return 1 + r.Intn(6) // maybe unknown
 		}
-		return live[r.Intn(len(live))].id
+		return reqs[r.Intn(len(reqs))].id
+	}
+	pickIn := func(states string) *rq {
+		var c []*rq
+		for _, q := range reqs {
+			if strings.Contains(states, q.st) {
+				c = append(c, q)
+			}
+		}
+		if len(c) == 0 {
+			return nil
+		}
+		return c[r.Intn(len(c))]
 	}
 	for i := 0; i < nops; i++ {
 		k := r.Intn(100)
 		switch {
-		case len(live) == 0 || (k < 12 && len(live) < 4):
+		case len(reqs) == 0 || (k < 10 && len(reqs) < 4):
 			p := r.Intn(nPeers)
 			fmt.Fprintf(w, "new %d %d\n", next, p)
-			live = append(live, rq{next, p})
+			reqs = append(reqs, &rq{next, p, "q"})
 			next++
-		case k < 26:
-			fmt.Fprintf(w, "start %d\n", pickReq())
+		case k < 24:
+			if q := pickIn("q"); q != nil && r.Intn(6) != 0 {
+				fmt.Fprintf(w, "start %d\n", q.id)
+				q.st = "r"
+			} else {
+				fmt.Fprintf(w, "start %d\n", pickAny())
+			}
 		case k < 36:
-			fmt.Fprintf(w, "release %d %s\n", pickReq(), []string{"ok", "paused", "paused", "err"}[r.Intn(4)])
-		case k < 80:
-			// a message: from the owner of a live request (genuine) or from another peer (foreign)
-			target := live[r.Intn(len(live))]
+			how := []string{"ok", "paused", "paused", "err"}[r.Intn(4)]
+			if q := pickIn("r"); q != nil && r.Intn(6) != 0 {
+				fmt.Fprintf(w, "release %d %s\n", q.id, how)
+				if how == "paused" {
+					q.st = "p"
+				} else {
+					q.st = "x"
+				}
+			} else {
+				fmt.Fprintf(w, "release %d %s\n", pickAny(), how)
+			}
+		case k < 78:
+			// a message: from the owner of a request (genuine) or from another peer (foreign)
+			target := reqs[r.Intn(len(reqs))]
+			if q := pickIn("qrp"); q != nil && r.Intn(4) != 0 {
+				target = q
+			}
 			q := target.p
 			if r.Intn(2) == 0 {
 				q = (target.p + 1 + r.Intn(nPeers-1)) % nPeers
@@ -1020,7 +1055,7 @@ func genCase(r *rand.Rand, w *bufio.Writer, id string) {
 			for j := 0; j < n; j++ {
 				id := target.id
 				if j > 0 {
-					id = pickReq()
+					id = pickAny()
 				}
 				if used[id] {
 					continue
@@ -1029,14 +1064,23 @@ func genCase(r *rand.Rand, w *bufio.Writer, id string) {
 				toks = append(toks, fmt.Sprintf("%d:%d:%d:%d:%d:%s", id, statuses[r.Intn(len(statuses))], r.Intn(4), r.Intn(3), r.Intn(2), hookRes[r.Intn(len(hookRes))]))
 			}
 			fmt.Fprintf(w, "resp %d %s\n", q, strings.Join(toks, " "))
-		case k < 86:
-			fmt.Fprintf(w, "cancel %d\n", pickReq())
-		case k < 90:
-			fmt.Fprintf(w, "pause %d\n", pickReq())
+		case k < 84:
+			fmt.Fprintf(w, "cancel %d\n", pickAny())
+		case k < 89:
+			if q := pickIn("rp"); q != nil && r.Intn(4) != 0 {
+				fmt.Fprintf(w, "pause %d\n", q.id)
+			} else {
+				fmt.Fprintf(w, "pause %d\n", pickAny())
+			}
 		case k < 96:
-			fmt.Fprintf(w, "unpause %d\n", pickReq())
+			if q := pickIn("p"); q != nil && r.Intn(5) != 0 {
+				fmt.Fprintf(w, "unpause %d\n", q.id)
+				q.st = "q"
+			} else {
+				fmt.Fprintf(w, "unpause %d\n", pickAny())
+			}
 		default:
-			fmt.Fprintf(w, "update %d\n", pickReq())
+			fmt.Fprintf(w, "update %d\n", pickAny())
 		}
 	}
 }
